@@ -1,11 +1,14 @@
 (* C19 — Multipart codec round trip, truthful size, reader termination.
    Only statements; each closed by `exact` of a lemma proved in Proofs/. *)
-From AV Require Import Lib.Base Generated.MultipartGen Model.Multipart Proofs.MultipartSize.
+From AV Require Import Lib.Base Generated.MultipartGen Model.Multipart Model.MultipartSpec
+  Proofs.MultipartSize Proofs.MultipartTerm Proofs.MultipartRoundtrip.
 Open Scope N_scope.
 
+(* ------------------------------------------------------------------ truthful size *)
+
 (* The declared size, when present, equals the bytes written: for every boundary and every part list.
-   [size] uses the formula generated from MultipartWriter.size, [encode] the framing generated from
-   MultipartWriter.write. *)
+   [size] uses the formula generated from MultipartWriter.size, [encode] the framing byte strings generated
+   from MultipartWriter.write / as_bytes. *)
 Theorem C19_size_truthful : forall b ps n, size b ps = Some n -> lenN (encode b ps) = n.
 Proof. exact size_truthful. Qed.
 Print Assumptions C19_size_truthful.
@@ -21,3 +24,84 @@ Example C19_size_example :
   lenN (encode [66] [mkW [88; 58; 32; 49; 13; 10; 13; 10] [104; 105] true; mkW [13; 10] [] true]) = 33.
 Proof. vm_compute. split; reflexivity. Qed.
 Print Assumptions C19_size_example.
+
+(* ------------------------------------------------------------------ round trip (specification-level splitter) *)
+
+(* Splitting the written bytes at CRLF "--" boundary gives back exactly the written blocks (header block ++
+   content), for every boundary and every list of parts none of which contains the delimiter (inside, or
+   across its end together with the following delimiter).  The sliding-window reader of the implementation
+   (BodyPartReader._read_chunk_from_stream) is modelled in Model/Multipart.v and compared with the
+   implementation on every check; its refinement of this splitter is not proved (stretch goal): what ties
+   the window reader to this statement is the correspondence suite `roundtrip` and the oracle. *)
+Theorem C19_roundtrip_spec : forall b ps,
+  forallb (block_clean b) ps = true -> spec_decode b (encode b ps) = Some (map block ps).
+Proof. exact roundtrip_spec. Qed.
+Print Assumptions C19_roundtrip_spec.
+
+Theorem C19_framing_injective : forall b ps qs,
+  forallb (block_clean b) ps = true -> forallb (block_clean b) qs = true ->
+  encode b ps = encode b qs -> map block ps = map block qs.
+Proof. exact encode_injective. Qed.
+Print Assumptions C19_framing_injective.
+
+(* hypotheses satisfiable by a non-trivial value: content full of CR/LF and a proper delimiter prefix *)
+Example C19_roundtrip_example :
+  let ps := [mkW [88; 58; 32; 49; 13; 10; 13; 10] [13; 10; 45; 45; 13; 10; 45; 45; 66; 13] true; mkW [13; 10] [] false] in
+  forallb (block_clean [66; 78]) ps = true /\
+  spec_decode [66; 78] (encode [66; 78] ps) = Some (map block ps).
+Proof. vm_compute. split; reflexivity. Qed.
+Print Assumptions C19_roundtrip_example.
+
+(* ------------------------------------------------------------------ termination of the reading loops *)
+
+(* One read_chunk call of any size > 0, in ANY part state over ANY stream state (any segmentation, arrival
+   schedule, push-back history): it raises, or the part is at_eof afterwards, or the measure
+   4 * (2 * bytes left in the stream + |_prev_chunk|) + (3 - _content_eof) strictly decreases. *)
+Theorem C19_read_chunk_progress : forall size p s d p' s',
+  0 < size -> wf p -> p_at_eof p = false ->
+  read_chunk size p s = Ok (d, p', s') ->
+  p_at_eof p' = true \/ (measure p' s' < measure p s /\ wf p').
+Proof. exact read_chunk_progress. Qed.
+Print Assumptions C19_read_chunk_progress.
+
+(* BodyPartReader.read(): the model's loop bound is never the reason it stops *)
+Theorem C19_read_terminates : forall fuel acc p s,
+  wf p -> (N.to_nat (measure p s) < fuel)%nat -> read_loop fuel acc p s <> Err EFuel.
+Proof. exact read_loop_terminates. Qed.
+Print Assumptions C19_read_terminates.
+
+(* BodyPartReader.release() (also what MultipartReader.next() runs on an unfinished part) *)
+Theorem C19_release_terminates : forall fuel p s,
+  wf p -> (N.to_nat (measure p s) < fuel)%nat -> release_loop fuel p s <> Err EFuel.
+Proof. exact release_loop_terminates. Qed.
+Print Assumptions C19_release_terminates.
+
+(* `while not part.at_eof(): await part.read_chunk(size_i)` for any positive sizes in rotation *)
+Theorem C19_read_chunk_loop_terminates : forall fuel sizes count bounded acc p s,
+  Forall (fun z => 0 < z) sizes -> wf p -> (N.to_nat (measure p s) < fuel)%nat ->
+  chunks_loop fuel sizes count bounded acc p s <> Err EFuel.
+Proof. exact chunks_loop_terminates. Qed.
+Print Assumptions C19_read_chunk_loop_terminates.
+
+(* a freshly created part (any boundary, Content-Length, base64 flag, limit) over any stream: read() ends
+   within 8 * (bytes in the stream) + 4 read_chunk calls *)
+Theorem C19_fresh_part_read_terminates : forall b len b64 mx s,
+  part_read (S (N.to_nat (8 * s_total s + 3))) (new_part b len b64 mx) s <> Err EFuel.
+Proof. exact part_read_terminates. Qed.
+Print Assumptions C19_fresh_part_read_terminates.
+
+Example C19_termination_hypotheses :
+  wf (new_part [45; 45; 66] (Some 5) false 100) /\
+  measure (new_part [45; 45; 66] (Some 5) false 100) (s_init [(0, [1; 2; 3]); (2, [4])] false 65536) = 35.
+Proof. vm_compute. split; [right; discriminate | reflexivity]. Qed.
+Print Assumptions C19_termination_hypotheses.
+
+(* The same claim for the readline API is REFUTED on the faithful model: at stream EOF readline() returns b""
+   without setting at_eof and without raising (there is no counterpart of the `_content_eof > 2` guard), so
+   `while not part.at_eof(): await part.readline()` exhausts every loop bound.  Witness replayed on the
+   implementation: corpus/C19/readline_loop_at_eof.json (known finding C19-readline-loop-at-eof). *)
+Theorem C19_readline_loop_terminates_refuted :
+  exists p s, p_at_eof p = false /\ s_at_eof s = true /\
+    (forall fuel, lines_loop fuel 0 false [] p s = Err EFuel).
+Proof. exact readline_loop_spins. Qed.
+Print Assumptions C19_readline_loop_terminates_refuted.
